@@ -17,3 +17,4 @@ import MidoProofs.SrcTie.Vlq
 #print axioms Mido.and_pred_eq_zero_iff
 #print axioms Mido.isPow2_iff
 #print axioms Mido.src_meta_time_signature_check
+#print axioms Mido.src_decode_variable_int
